@@ -168,6 +168,15 @@ func c08() int {
 	cov["cache_runs"] = cacheRuns
 	cov["sharing_runs"] = shareRuns
 	rep.Assume = []string{"reference semantics of DESIGN.md Appendix A (my reading of Numscript, anchored on the language's own tests)", "one documented ambiguity (capped destination entry after a kept amount) accepted either way"}
+	// sequences of scripts through one Commander / one cache / two ledgers (scriptseq.go)
+	seqN, seqSteps := scriptSequences(rep, "")
+	cov["script_sequences"], cov["script_sequence_steps"] = seqN, seqSteps
+	if rep.Thorough() {
+		cov["resource_limit_cases"] = resourceLimit(rep, "") // (quick tier: run by C01)
+	}
+	// the amount as a client states it, through the v1 / v2 routers and bulk (apivars.go)
+	apiCases, apiAccepted, apiRefused := apiAmounts(rep)
+	cov["api_amount_cases"], cov["api_amount_accepted"], cov["api_amount_refused"] = apiCases, apiAccepted, apiRefused
 	return rep.Finish(cov)
 }
 
